@@ -1416,5 +1416,419 @@ def C13(tier):
                    '23 keys (look-alike pairs) x shard counts {1,2,3,8,13} x 2 hashing orders against the released routing; small equivalence history', cases, bad)]
 
 
+# ====================================================================== values (C01)
+def C01(tier):
+    """Value corpus x thresholds x protocols x Disk/JSONDisk x every accessor."""
+    import io
+    import pickle
+    import diskcache
+    vals = [0, 1, -1, 2 ** 63 - 1, -2 ** 63, 2 ** 63, 2 ** 100, 0.0, -0.0, 1.5, inf, -inf, nan, 5e-324, '', 'a', 'a\rb\r\nc\n',
+            '\x00', '\x85\u2028', '\U0001f600', 'é' * 40, b'', b'\x00\xff' * 30, None, True, False, (1, 'a', None), [1, [2, 3]],
+            {'k': (1, 2)}, frozenset([1, 2]), 'x' * 100, b'y' * 100]
+    jvals = [v for v in vals if isinstance(v, (int, float, str, type(None), bool)) and not isinstance(v, bytes)] + [[1, 'a', None], {'k': [1, 2]}]
+    bad = None
+    cases = 0
+    for diskname in ('Disk', 'JSONDisk'):
+        disk = getattr(diskcache, diskname)
+        for mfs in (0, 1, 8, 64, 2 ** 15):
+            protos = (0, pickle.HIGHEST_PROTOCOL) if tier == 'quick' else range(pickle.HIGHEST_PROTOCOL + 1)
+            for proto in protos:
+                d = tempfile.mkdtemp()
+                try:
+                    c = diskcache.Cache(d, disk=disk, disk_min_file_size=mfs, disk_pickle_protocol=proto)
+                    dq = diskcache.Deque.fromcache(diskcache.Cache(d + '/dq', disk=disk, disk_min_file_size=mfs, eviction_policy='none'))
+                    ix = diskcache.Index.fromcache(diskcache.Cache(d + '/ix', disk=disk, disk_min_file_size=mfs, eviction_policy='none'))
+                    for v in (vals if diskname == 'Disk' else jvals):
+                        cases += 1
+                        try:
+                            c.set('k', v)
+                        except Exception:
+                            continue            # rejected: allowed
+                        got = [c.get('k'), c['k'], c.peekitem()[1]]
+                        k2 = c.push(v)
+                        got.append(c.peek()[1])
+                        got.append(c.pull()[1])
+                        got.append(c.pop('k'))
+                        if diskname == 'Disk':      # queue keys under JSONDisk cannot be decoded: recorded finding KF-C02-jsondisk-queue-keys
+                            dq.append(v)
+                            got.append(dq[0])
+                            got.append(dq.pop())
+                        ix['k'] = v
+                        got.append(ix['k'])
+                        for g in got:
+                            if not same(g, v) and not (isinstance(v, list) and g == v) and not (isinstance(v, dict) and g == v) and not (isinstance(v, frozenset) and g == v):
+                                bad = bad or '%s min_file_size=%d protocol=%d: stored %r, an accessor returned %r' % (diskname, mfs, proto, v, g)
+                    if diskname == 'Disk':
+                        payload = bytes(range(256)) * 40
+                        c.set('s', io.BytesIO(payload), read=True)
+                        with c.get('s', read=True) as f:
+                            if f.read() != payload:
+                                bad = bad or 'stream stored with read=True is read back differently (handle)'
+                        if c.get('s') != payload:
+                            bad = bad or 'stream stored with read=True is read back differently (get)'
+                finally:
+                    shutil.rmtree(d, ignore_errors=True)
+    return [result('C01.standin.value_corpus', bad is None,
+                   '32 values x min_file_size {0,1,8,64,32768} x pickle protocols x Disk/JSONDisk x 9 accessors', cases, bad)]
+
+
+# ====================================================================== transactions (C05 / C06 / C07)
+def _txn_standin(pid, tier):
+    import threading
+    import diskcache
+    bad = None
+    cases = 0
+    d = tempfile.mkdtemp()
+    try:
+        c = diskcache.Cache(d + '/a', disk_min_file_size=64)
+        other = diskcache.Cache(d + '/a')
+        # all-or-nothing for inline values; nesting; ownership
+        c.update = None
+        c.set('a', 1)
+        try:
+            with c.transact():
+                c.set('a', 2)
+                c.set('b', 3)
+                with c.transact():
+                    c.incr('a')
+                if other.get('b') is not None:
+                    bad = bad or 'another client sees a write of an open block'
+                raise RuntimeError('abort')
+        except RuntimeError:
+            pass
+        cases += 1
+        if c.get('a') != 1 or 'b' in c or len(c) != 1:
+            bad = bad or 'aborted block left effects: a=%r, b present=%r' % (c.get('a'), 'b' in c)
+        with c.transact():
+            c.set('a', 2)
+            with c.transact():
+                c.set('b', b'x' * 500)
+        cases += 1
+        if other.get('a') != 2 or other.get('b') != b'x' * 500:
+            bad = bad or 'committed block not visible to another client'
+        # a thread using the same object does not join the transaction
+        seen = []
+
+        def intruder():
+            try:
+                c2 = c
+                c2.set('t', 1)
+                seen.append('done')
+            except diskcache.Timeout:
+                seen.append('timeout')
+        c3 = diskcache.Cache(d + '/a', timeout=0.05)
+        with c3.transact():
+            c3.set('own', 1)
+            t = threading.Thread(target=lambda: (seen.append('timeout') if _raises(lambda: c3.set('t', 1), diskcache.Timeout) else seen.append('joined')))
+            t.start()
+            t.join()
+        cases += 1
+        if seen != ['timeout']:
+            bad = bad or 'another thread on the same object joined or bypassed the open transaction: %r' % seen
+        # concurrent atomicity: incr loses no update, add succeeds once, pop delivers once
+        cc_ = diskcache.Cache(d + '/b')
+        cc_.set('n', 0)
+        for i in range(40):
+            cc_.set(('item', i), i)
+        added, popped = [], []
+
+        def worker(k):
+            h = diskcache.Cache(d + '/b')
+            for i in range(60):
+                h.incr('n', retry=True)
+            if h.add('once', k, retry=True):
+                added.append(k)
+            for i in range(40):
+                v = h.pop(('item', i), default=None, retry=True)
+                if v is not None:
+                    popped.append(v)
+        ts = [threading.Thread(target=worker, args=(k,)) for k in range(4)]
+        for t in ts:
+            t.start()
+        for t in ts:
+            t.join()
+        cases += 3
+        if cc_.get('n') != 240:
+            bad = bad or 'concurrent incr lost updates: %r of 240' % cc_.get('n')
+        if len(added) != 1:
+            bad = bad or 'concurrent add succeeded for %d callers' % len(added)
+        if sorted(popped) != list(range(40)):
+            bad = bad or 'concurrent pop delivered %d items, %d distinct' % (len(popped), len(set(popped)))
+        w = [str(x.message) for x in cc_.check()]
+        if w:
+            bad = bad or 'check() after concurrent use: %r' % w[:2]
+    except Exception as e:
+        import traceback
+        bad = bad or 'raised %r %s' % (e, traceback.format_exc()[-300:])
+    finally:
+        shutil.rmtree(d, ignore_errors=True)
+    return [result(pid + '.standin.transactions_and_threads', bad is None,
+                   'abort/commit/nesting/ownership scenarios (inline values in aborted blocks) and 4 threads x (60 incr, add, 40 pops)', cases, bad)]
+
+
+def _raises(f, exc):
+    try:
+        f()
+        return False
+    except exc:
+        return True
+
+
+def C05(tier):
+    return _txn_standin('C05', tier)
+
+
+def C06(tier):
+    return _txn_standin('C06', tier)
+
+
+def C07(tier):
+    """Child processes killed (os._exit) at chosen effect boundaries of set / replace / pop / delete."""
+    import subprocess
+    import diskcache
+    bad = None
+    cases = 0
+    script = r"""
+import os, sys, diskcache
+from diskcache import core
+d, op, point = sys.argv[1], sys.argv[2], int(sys.argv[3])
+c = diskcache.Cache(d, disk_min_file_size=64)
+n = [0]
+def tick():
+    n[0] += 1
+    if n[0] == point:
+        os._exit(9)
+real_sql = core.Cache._sql.fget
+def _sql(self):
+    ex = real_sql(self)
+    def run(*a, **k):
+        tick(); r = ex(*a, **k); tick(); return r
+    return run
+core.Cache._sql = property(_sql)
+real_remove = core.Disk.remove
+def remove(self, p):
+    tick(); real_remove(self, p); tick()
+core.Disk.remove = remove
+real_write = core.Disk._write
+def _write(self, *a, **k):
+    tick(); r = real_write(self, *a, **k); tick(); return r
+core.Disk._write = _write
+if op == 'set': c.set('new', b'n' * 300)
+elif op == 'replace': c.set('victim', b'r' * 300)
+elif op == 'pop': c.pop('victim')
+elif op == 'delete': c.delete('victim')
+os._exit(0)
+"""
+    d0 = tempfile.mkdtemp()
+    try:
+        open(d0 + '/child.py', 'w').write(script)
+        env = dict(os.environ)
+        for op in ('set', 'replace', 'pop', 'delete'):
+            for point in range(1, 16 if tier == 'quick' else 40):
+                cases += 1
+                d = tempfile.mkdtemp()
+                try:
+                    c = diskcache.Cache(d, disk_min_file_size=64)
+                    c.set('victim', b'v' * 300)
+                    c.set('other', b'o' * 300)
+                    c.close()
+                    subprocess.run([sys.executable, d0 + '/child.py', d, op, str(point)], env=env, timeout=60)
+                    c = diskcache.Cache(d, disk_min_file_size=64)
+                    where = 'kill at effect boundary %d of %s' % (point, op)
+                    if c.get('other') != b'o' * 300:
+                        bad = bad or where + ': unrelated item damaged'
+                    for k in list(c):
+                        try:
+                            v = c[k]
+                        except KeyError:
+                            bad = bad or where + ': key %r reported present but has no value' % (k,)
+                            continue
+                        if k == 'victim' and v not in (b'v' * 300, b'r' * 300):
+                            bad = bad or where + ': victim has a partial / mixed value'
+                        if k == 'new' and v != b'n' * 300:
+                            bad = bad or where + ': new item has a partial value'
+                    c.set('after', 1)
+                    if c.get('after') != 1:
+                        bad = bad or where + ': cannot write after the kill'
+                    w = [str(x.message) for x in c.check() if 'unknown file' not in str(x.message) and 'empty directory' not in str(x.message)]
+                    if w:
+                        bad = bad or where + ': check() reports %r' % w[:2]
+                    c.check(fix=True)
+                    if c.check():
+                        bad = bad or where + ': repair does not clean up the debris'
+                finally:
+                    shutil.rmtree(d, ignore_errors=True)
+                if bad:
+                    break
+            if bad:
+                break
+    except Exception as e:
+        import traceback
+        bad = bad or 'raised %r %s' % (e, traceback.format_exc()[-300:])
+    finally:
+        shutil.rmtree(d0, ignore_errors=True)
+    return [result('C07.standin.kill_points', bad is None,
+                   'set / replace / pop / delete of file-backed items, killed at each of the first %d effect boundaries (before/after every SQL statement, file write, file removal)' % (15 if tier == 'quick' else 39), cases, bad)]
+
+
+# ====================================================================== recipes (C15)
+def C15(tier):
+    import threading
+    import diskcache
+    from diskcache import recipes
+    bad = None
+    cases = 0
+    d = tempfile.mkdtemp()
+    try:
+        for name, mk, limit in (('Lock', lambda c: recipes.Lock(c, 'lock'), 1), ('RLock', lambda c: recipes.RLock(c, 'rlock'), 1),
+                                ('BoundedSemaphore', lambda c: recipes.BoundedSemaphore(c, 'sem', value=2), 2)):
+            inside = [0]
+            peak = [0]
+            guard = threading.Lock()
+
+            def worker():
+                c = diskcache.Cache(d + '/' + name)
+                prim = mk(c)
+                for i in range(25):
+                    prim.acquire()
+                    if name == 'RLock':
+                        prim.acquire()
+                    with guard:
+                        inside[0] += 1
+                        peak[0] = max(peak[0], inside[0])
+                    with guard:
+                        inside[0] -= 1
+                    if name == 'RLock':
+                        prim.release()
+                    prim.release()
+            ts = [threading.Thread(target=worker) for _ in range(4)]
+            for t in ts:
+                t.start()
+            for t in ts:
+                t.join()
+            cases += 100
+            if peak[0] > limit:
+                bad = bad or '%s: %d holders at once (limit %d)' % (name, peak[0], limit)
+        c = diskcache.Cache(d + '/refuse')
+        for prim in (recipes.RLock(c, 'r'), recipes.BoundedSemaphore(c, 's', value=2)):
+            cases += 1
+            if not _raises(prim.release, AssertionError):
+                bad = bad or '%s.release of something not held is accepted' % type(prim).__name__
+        calls = []
+
+        @recipes.barrier(c, recipes.Lock)
+        def f(x, y=1):
+            calls.append((x, y))
+            return x + y
+        if f(1, y=2) != 3 or calls != [(1, 2)]:
+            bad = bad or 'barrier does not call the function with the caller\'s arguments'
+    except Exception as e:
+        import traceback
+        bad = bad or 'raised %r %s' % (e, traceback.format_exc()[-300:])
+    finally:
+        shutil.rmtree(d, ignore_errors=True)
+    return [result('C15.standin.contending_threads', bad is None, '4 threads x 25 acquire/release rounds per primitive; refusal; barrier', cases, bad)]
+
+
+# ====================================================================== persistence (C18)
+def C18(tier):
+    import pickle
+    import subprocess
+    import diskcache
+    bad = None
+    cases = 0
+    d = tempfile.mkdtemp()
+    try:
+        settings = dict(size_limit=12345678, cull_limit=3, statistics=1, eviction_policy='least-recently-used', disk_min_file_size=77,
+                        tag_index=1)
+        c = diskcache.Cache(d + '/c', **settings)
+        c.set('k', b'v' * 200, tag='t')
+        c.set(2.5, 'x')
+        c.close()
+        for how in ('reopen', 'pickle', 'process'):
+            cases += 1
+            if how == 'reopen':
+                h = diskcache.Cache(d + '/c')
+            elif how == 'pickle':
+                h = pickle.loads(pickle.dumps(diskcache.Cache(d + '/c')))
+            else:
+                out = subprocess.run([sys.executable, '-c', 'import diskcache,sys; c=diskcache.Cache(sys.argv[1]); print(c.size_limit, c.cull_limit, c.eviction_policy, c.disk_min_file_size, len(c), c.get("k")==b"v"*200)', d + '/c'],
+                                     capture_output=True, text=True, env=dict(os.environ), timeout=60).stdout.split()
+                if out != ['12345678', '3', 'least-recently-used', '77', '2', 'True']:
+                    bad = bad or 'a new process sees %r' % (out,)
+                continue
+            for k, v in settings.items():
+                if getattr(h, k) != v:
+                    bad = bad or '%s: setting %s is %r, created with %r' % (how, k, getattr(h, k), v)
+            if h.get('k') != b'v' * 200 or h.get(2.5) != 'x' or len(h) != 2 or h.disk.min_file_size != 77:
+                bad = bad or '%s: items or disk settings lost' % how
+            h.close()
+            if h.get('k') != b'v' * 200:
+                bad = bad or '%s: a closed object does not reopen transparently' % how
+        f = diskcache.FanoutCache(d + '/f', shards=3, cull_limit=7)
+        f.set('a', 1)
+        g = pickle.loads(pickle.dumps(f))
+        cases += 1
+        if g.get('a') != 1 or g._count != 3 or g.cull_limit != 7:
+            bad = bad or 'FanoutCache does not survive pickling'
+        dq = diskcache.Deque([1, 2, 3], directory=d + '/dq', maxlen=5)
+        ix = diskcache.Index(d + '/ix', a=1)
+        cases += 2
+        if list(pickle.loads(pickle.dumps(dq))) != [1, 2, 3] or pickle.loads(pickle.dumps(dq)).maxlen != 5:
+            bad = bad or 'Deque does not survive pickling'
+        if dict(pickle.loads(pickle.dumps(ix))) != {'a': 1}:
+            bad = bad or 'Index does not survive pickling'
+    except Exception as e:
+        import traceback
+        bad = bad or 'raised %r %s' % (e, traceback.format_exc()[-300:])
+    finally:
+        shutil.rmtree(d, ignore_errors=True)
+    return [result('C18.standin.reopen_pickle_process', bad is None, 'settings and items across reopen, pickle, new process; Fanout/Deque/Index pickling', cases, bad)]
+
+
+# ====================================================================== Django backend (C19)
+def C19(tier):
+    bad = None
+    cases = 0
+    d = tempfile.mkdtemp()
+    try:
+        import django
+        from django.conf import settings
+        if not settings.configured:
+            settings.configure(CACHES={})
+        from diskcache import DjangoCache
+        from diskcache import core
+        clock = [1000.0]
+        real = core.time.time
+        core.time.time = lambda: clock[0]
+        try:
+            c = DjangoCache(d, {'TIMEOUT': 50, 'KEY_PREFIX': 'p', 'VERSION': 2, 'SHARDS': 2})
+            checks = [
+                ('forever', lambda: c.set('a', 1, timeout=None), lambda: (clock.__setitem__(0, clock[0] + 10 ** 6), c.get('a'))[1] == 1),
+                ('zero', lambda: c.set('b', 1, timeout=0), lambda: c.get('b') is None and not c.has_key('b')),
+                ('negative', lambda: c.set('c', 1, timeout=-5), lambda: c.get('c') is None),
+                ('default', lambda: c.set('d', 1), lambda: c.get('d') == 1 and (clock.__setitem__(0, clock[0] + 60), c.get('d'))[1] is None),
+                ('overwrite-expired', lambda: (c.set('e', 1), c.set('e', 2, timeout=0)), lambda: c.get('e') is None and _raises(lambda: c.incr('e'), ValueError) and c.add('e', 3) is True),
+                ('versions', lambda: (c.set('v', 1, version=1), c.set('v', 2, version=2)), lambda: c.get('v', version=1) == 1 and c.get('v') == 2),
+                ('incr', lambda: c.set('n', 5, timeout=None), lambda: c.incr('n') == 6 and c.decr('n', 2) == 4 and _raises(lambda: c.incr('missing'), ValueError)),
+                ('many', lambda: c.set_many({'m1': 1, 'm2': 2}, timeout=None), lambda: c.get_many(['m1', 'm2', 'zz']) == {'m1': 1, 'm2': 2} and (c.delete_many(['m1']), c.get('m1'))[1] is None),
+                ('touch-pop', lambda: c.set('t', 1, timeout=10), lambda: c.touch('t', None) is True and c.pop('t') == 1 and c.touch('t') is False),
+                ('get_or_set', lambda: None, lambda: c.get_or_set('g', 7, timeout=None) == 7 and c.get('g') == 7),
+            ]
+            for name, do, ok in checks:
+                cases += 1
+                do()
+                if not ok():
+                    bad = bad or 'Django contract scenario %r fails' % name
+        finally:
+            core.time.time = real
+    except Exception as e:
+        import traceback
+        bad = bad or 'raised %r %s' % (e, traceback.format_exc()[-300:])
+    finally:
+        shutil.rmtree(d, ignore_errors=True)
+    return [result('C19.standin.django_contract_scenarios', bad is None, '10 scenarios over timeouts {None, 0, negative, default}, versions, incr/decr, *_many, touch, pop, get_or_set', cases, bad)]
+
+
 if __name__ == '__main__':
     main()
